@@ -10,6 +10,7 @@
      b < 0, gcd(a, m) ≠ 1       → r = none              (ERR_NO_VALID of bn_mod_inv)                                        -/
 import RelicVerif.Lemmas.NtMxp
 import RelicVerif.Lemmas.NtMxpLeg
+import RelicVerif.Lemmas.NtMxpRsa
 
 namespace Relic.Props.C09
 open Relic.Model Relic.Model.NtMxp
@@ -61,6 +62,34 @@ theorem mxp_crt_addloop_total (p : Int) (hp : 0 < p) (d : Int) : 0 ≤ addLoop p
 /-- bn_smb_leg: for every integer a (negative, ≥ p, multiples of p included) and every odd prime p the result is the Legendre symbol -/
 theorem smb_leg_exact (w : Nat) (p : Nat) [Fact p.Prime] (hp2 : p ≠ 2) (a : Int) :
     smbLeg w a (p : Int) = some (legendreSym p a) := smbLeg_spec w p hp2 a
+
+/-- bn_mxp_sim (= bn_mxp_sim_few unrolled at n = 2: table {1, a, d, d·a}, one squaring per bit of the longer exponent, one
+    multiplication by t[parities]) on ALL integers: m = 1 → 0; m even or ≤ 0 → error (also when both exponents are 0 — there is no
+    zero-exponent exit); otherwise (a^|b| · d^|e|) mod m, canonical — the signs of the exponents are ignored by the code -/
+theorem mxp_sim_exact (w : Nat) (a b d e m : Int) : SimSpec a b d e m (mxpSim w a b d e m) := mxpSim_spec w a b d e m
+
+/-- plain reading: odd m > 1, exponents ≥ 0 -/
+theorem mxp_sim_nonneg (w : Nat) (a b d e m : Int) (hm : 1 < m) (hodd : m % 2 = 1) (hb : 0 ≤ b) (he : 0 ≤ e) :
+    mxpSim w a b d e m = some (a ^ b.toNat * d ^ e.toNat % m) := by
+  have h := mxpSim_spec w a b d e m
+  unfold SimSpec at h
+  rw [if_neg (by omega), if_neg (by omega)] at h
+  rw [h, Int.toNat_of_nonneg hb |> fun _ => (by omega : b.natAbs = b.toNat), (by omega : e.natAbs = e.toNat)]
+
+/-- bn_mxp_crt, sqr = 1: with crtHalf a b p dp = ((a^b mod p² − 1) / p · dp) mod p (floor division) the result r lies in [0, pq),
+    r ≡ crtHalf a b p dp (mod p) and r mod q = crtHalf a c q dq — the CRT lift of the two Paillier-type halves -/
+theorem mxp_crt_sqr_exact (w : Nat) (a b c p q dp dq qi : Int) (hp : 1 < p) (hpo : p % 2 = 1) (hq : 1 < q) (hqo : q % 2 = 1)
+    (hb : 0 ≤ b) (hc : 0 ≤ c) (hqi : qi * q ≡ 1 [ZMOD p]) :
+    ∃ r, mxpCrt w a b c p q dp dq qi true = some r ∧ 0 ≤ r ∧ r < p * q ∧
+      r ≡ crtHalf a b p dp [ZMOD p] ∧ r ≡ crtHalf a c q dq [ZMOD q] ∧ r % q = crtHalf a c q dq :=
+  mxpCrt_sqr_spec w a b c p q dp dq qi hp hpo hq hqo hb hc hqi
+
+/-- RSA: distinct odd primes p, q, EVERY integer a (no coprimality), exponents ≥ 1 with dp ≡ d (mod p−1), dq ≡ d (mod q−1):
+    bn_mxp_crt (qi by bn_mod_inv) returns a^d mod pq -/
+theorem mxp_crt_rsa (w : Nat) (p q : Nat) [Fact p.Prime] [Fact q.Prime] (hp2 : p ≠ 2) (hq2 : q ≠ 2) (hpq : p ≠ q)
+    (a : Int) (d dp dq : Nat) (hd : 1 ≤ d) (hdp : 1 ≤ dp) (hdq : 1 ≤ dq)
+    (h1 : dp ≡ d [MOD p - 1]) (h2 : dq ≡ d [MOD q - 1]) :
+    mxpCrtOp w a dp dq p q false = some (a ^ d % ((p : Int) * q)) := mxpCrt_rsa w p q hp2 hq2 hpq a d dp dq hd hdp hdq h1 h2
 
 -- the hypotheses are satisfiable
 example : ∃ r, mxpCrtOp 64 5 3 3 7 11 false = some r ∧ 0 ≤ r ∧ r < 7 * 11 ∧ r ≡ 5 ^ 3 [ZMOD 7] ∧ r ≡ 5 ^ 3 [ZMOD 11] :=
